@@ -163,14 +163,14 @@ def replay(ob, seed=0):
     if "aggregation.core" in func:
         scen = aggregation_scenarios(func.rsplit(".", 1)[-1])
         if "all-components" in name:
-            scen = (w for w in scen if w["indices"] is None)
+            scen = [w for w in scen if w["indices"] is None]
         elif "subset-of-components" in name:
-            scen = (w for w in scen if w["indices"] is not None)
+            scen = [w for w in scen if w["indices"] is not None]
     elif "_operations" in func:
-        scen = algebra_scenarios()
-        for op in ("mul", "div", "add", "sub"):
-            if f"@{op}:" in name:
-                scen = (w for w in algebra_scenarios() if w["op"] == op)
+        ops = [op for op in ("mul", "div", "add", "sub") if f"@{op}:" in name] or ["mul", "div", "add", "sub"]
+        scen = [w for w in algebra_scenarios() if w["op"] in ops]
+        if "unexpected-ValueError" in name:
+            scen = [w for w in scen if w["m"] != w["n"]] + scen
     else:
         return None
     for w in scen:
